@@ -7,8 +7,8 @@ import (
 	"os"
 	"runtime/debug"
 	"sort"
-	"strings"
 	"strconv"
+	"strings"
 	"sync/atomic"
 	"unsafe"
 
@@ -162,6 +162,10 @@ type gen struct {
 	universe [][]byte
 	vctr     int
 	nopsAt   [3]int
+	// child collections of the root that the previous batch deleted: re-created at once, with data,
+	// by two batches in three - deletion and re-creation then often travel in ONE persistence round,
+	// next to top-level data (incarnation checks of merger, persister and every kind of compaction)
+	justDeleted []string
 }
 
 func (g *gen) value() []byte {
@@ -238,6 +242,7 @@ func parseScript(text string) ([]scriptStep, error) {
 		}
 		f := strings.Fields(ln)
 		switch f[0] {
+		case "cfg": // options of the case: read by famColl
 		case "m":
 			out = append(out, scriptStep{choice: 1})
 		case "p":
@@ -280,6 +285,9 @@ func parseScript(text string) ([]scriptStep, error) {
 				val := []byte{}
 				if len(g) > 3 {
 					val = []byte(g[3])
+					if n, e := strconv.Atoi(strings.TrimPrefix(g[3], "*")); e == nil && strings.HasPrefix(g[3], "*") && n > 0 {
+						val = bytes.Repeat([]byte("B"), n) // *N: a value of N bytes
+					}
 				}
 				node.ops = append(node.ops, bop{g[1][0], []byte(g[2]), val})
 			}
@@ -322,6 +330,16 @@ func (g *gen) batch(depth int) *tbatch {
 		return b
 	}
 	b := &tbatch{ops: g.opsAt(5, depth), alloc: g.r.intn(100) < g.o.allocPct}
+	if depth == 0 && len(g.justDeleted) > 0 {
+		names := g.justDeleted
+		g.justDeleted = nil
+		if g.r.chance(2, 3) {
+			for _, n := range names {
+				b.kids = append(b.kids, kid{name: n, b: &tbatch{ops: g.opsAt(3, 1)}})
+			}
+			return b
+		}
+	}
 	if depth < 2 && g.r.intn(100) < g.o.childPct {
 		names := childNames
 		if depth == 1 {
@@ -334,6 +352,9 @@ func (g *gen) batch(depth int) *tbatch {
 				b.kids = append(b.kids, kid{name: n, b: cb})
 			case 2:
 				b.kids = append(b.kids, kid{name: n, del: true})
+				if depth == 0 {
+					g.justDeleted = append(g.justDeleted, n)
+				}
 			}
 		}
 	}
